@@ -39,7 +39,7 @@ def check(pid, engine, text, note, technique, design_ref):
 
 check(
     "C14", "fresh",
-    "Seeded search over sequences of public mutators (model parameters, rho, damping, Translate/Rotate/Symmetry, mesh.coord=, simu.mesh=, Bc_Init and re-adding conditions, time-scheme switches, Save_Iter/Set_Iter) interleaved with reads and solves on 1-3 live simulations sharing meshes and models; after every read the live result is compared with a brand-new simulation built from a declarative record of the final configuration. Injected linear-back-end failures inside Solve check that a failed solve leaves the state untouched and the retry equals the unfaulted result; injected allocation failures interrupt an assembly part-way and the repeated read must still equal the fresh build; scripted orderings (multi-mesh histories, 'discarded attempt': save, change the load, solve, Set_Iter(-1), read) are mixed into the random stream; meshes with 0-3 nodes that no element uses (another number on every mesh of a run) and stretched copies of a mesh (same array sizes, other operators) take part in the mesh replacements; a Beam frame actor (parameters, connections, the frame meshed again with the other element type and assigned to simu.mesh) is compared with a frame rebuilt from scratch. Sampling, not enumeration: a clean batch is evidence, not proof.",
+    "Seeded search over sequences of public mutators (model parameters, rho, damping, Translate/Rotate/Symmetry, mesh.coord=, simu.mesh=, Bc_Init and re-adding conditions, time-scheme switches, Save_Iter/Set_Iter) interleaved with reads and solves on 1-3 live simulations sharing meshes and models; after every read the live result is compared with a brand-new simulation built from a declarative record of the final configuration. Injected linear-back-end failures inside Solve check that a failed solve leaves the state untouched and the retry equals the unfaulted result; injected allocation failures interrupt an assembly part-way and the repeated read must still equal the fresh build; scripted orderings (multi-mesh histories, 'discarded attempt': save, change the load, solve, Set_Iter(-1), read) are mixed into the random stream; meshes with 0-3 nodes that no element uses (another number on every mesh of a run) and stretched copies of a mesh (same array sizes, other operators) take part in the mesh replacements; a Beam frame actor (parameters, connections, the frame meshed again with the other element type and assigned to simu.mesh) is compared with a frame rebuilt from scratch. Sampling, not enumeration: a clean batch is evidence, not proof. A disk actor (8 % of the runs) drives Elastic / Thermal simulations over two meshes through Save(folder), Load_Simu (the run continues with the loaded object) and Set_Iter onto a mesh read back from its file, then moves / re-coordinates the mesh the simulation works on, writes parameters and compares operators and solution with a simulation built on the current arrays of that mesh. The elastic law an InElastic behaviour was built with is written too; distributed loads are entered again after the mesh was re-coordinated and the conditions cleared.",
     "Trusted: the reference builder (simkit.simlib/meshlib: constructor calls only, no deepcopy), NumPy/SciPy, and that a freshly constructed simulation is correct (that is what C01-C13 are about). Boundary-condition values are resolved at the time they are added (compared then against a fresh simulation) and replayed as resolved arrays afterwards. Solutions of the BoundConstrain phase-field solver (scipy lsq_linear, interior method) are not compared digit-wise (its systems are).",
     "deterministic simulation: seeded op/fault sequences vs fresh-build reference model, ddmin-minimised replay files",
     "DESIGN.md section 5, C14",
@@ -47,7 +47,7 @@ check(
 
 check(
     "C15", "hist",
-    "Seeded search over histories of solve / Save_Iter / folder change / Get_results / Set_Iter / Result(iter=i) / mesh replacement / time-scheme switch / Save / Load_Simu / Mesh.Save+Load_Mesh / scribbling on returned arrays, Save_Iter called bare or with the caller's own dict (one object for every call, rewritten after it), for Elastic (static and dynamic), Thermal, PhaseField, InElastic, HyperElastic, WeakForms and Beam (frame with a connection; a second mesh with moved interior nodes; internal forces fx, fy among the recorded results) simulations with 1-3 meshes in one history (including meshes with nodes that no element uses, meshes with two main-dimension groups, TRI3 + QUAD4, whose group order fixes the element numbering; element-wise results are part of the snapshots), on a simulated disk. Oracle: deep-copied snapshots taken when each iteration was saved (fields, internal variables, mesh digest, named results); after every operation every stored iteration is re-read and compared exactly. A separate fault batch injects EIO/ENOSPC/EACCES on open/write/read and process kills (clean and torn) inside Save_Iter/Save/Get_results/Set_Iter/Load_Simu with the narrowed oracle 'may fail, never wrong data', including restart from what the disk holds.",
+    "Seeded search over histories of solve / Save_Iter / folder change / Get_results / Set_Iter / Result(iter=i) / mesh replacement / time-scheme switch / Save / Load_Simu / Mesh.Save+Load_Mesh / scribbling on returned arrays, Save_Iter called bare or with the caller's own dict (one object for every call, rewritten after it), for Elastic (static and dynamic), Thermal, PhaseField, InElastic, HyperElastic, WeakForms and Beam (frame with a connection; a second mesh with moved interior nodes; internal forces fx, fy among the recorded results) simulations with 1-3 meshes in one history (including meshes with nodes that no element uses, meshes with two main-dimension groups, TRI3 + QUAD4, whose group order fixes the element numbering; element-wise results are part of the snapshots), on a simulated disk. Oracle: deep-copied snapshots taken when each iteration was saved (fields, internal variables, mesh digest, named results); after every operation every stored iteration is re-read and compared exactly. A separate fault batch injects EIO/ENOSPC/EACCES on open/write/read and process kills (clean and torn) inside Save_Iter/Save/Get_results/Set_Iter/Load_Simu with the narrowed oracle 'may fail, never wrong data', including restart from what the disk holds. Histories over two meshes are built deliberately and scripted 'save, [load,] restore an iteration of an earlier mesh, save again (same or other folder), load'; Beam frames are also stepped with the dynamic schemes (velocity and acceleration are fields of such an iteration).",
     "Trusted: the snapshot recorder (deep copies through public getters plus the two name-mangled state attributes the property's anchors name: InElastic committed variables, PhaseField history field), pickle, the tmpfs under the simulated disk. Process kill semantics: bytes accepted by write() survive (no power-loss model). Velocity/acceleration are compared after Set_Iter only when the scheme active at restore time stores them. Two open findings are steered around in the random batch and reproduced from their own replay files (known_findings.json).",
     "deterministic simulation with disk-fault and crash injection: seeded op/fault sequences vs snapshot reference model, ddmin-minimised replay files",
     "DESIGN.md section 5, C15",
@@ -55,21 +55,21 @@ check(
 
 check(
     "C03", "asm",
-    "Seeded search over sequences of repeated assemblies interleaved with everything that moves the key of the cached element-to-CSR map (new element values, absent/present slots, real/complex values, Lagrange conditions and Dirichlet dofs changing Ndof, Bc_Init, mesh replacement, node renumbering, coordinate changes, Need_Update, Save_Iter/Set_Iter) on a harness-defined _Simu subclass (bulk + boundary + point groups, boundary groups either the mesh's own or user-built copies with the elements in another order, 1-2 problem types with different dofs per node in one object) and on Thermal / Elastic / PhaseField simulations. After every assembly K, C, M, F are compared (1e-12) with a dense loop summation of the very element arrays Construct_local_matrix_system returned for that call; shape, canonical CSR and complex dtype are checked; renumbering must give P K P^T. A fault batch makes the k-th sparse construction of an assembly fail with MemoryError (assembly interrupted after some slots were built and maps cached): the repeated assembly must be exact and an interrupted Get_K_C_M_F must still ask for an update. Probes count reused vs rebuilt maps. Size is covered by one more actor (0.06 % of the quick runs, 0.2 % of the thorough ones, plus a fixed scenario replay run by every check): a Thermal simulation on a structured QUAD4 grid with 46 656 - 53 361 dofs (row * Ndof + col beyond 32 bits), assembled twice, compared with a sparse COO scatter-add of the element arrays.",
+    "Seeded search over sequences of repeated assemblies interleaved with everything that moves the key of the cached element-to-CSR map (new element values, absent/present slots, real/complex values, Lagrange conditions and Dirichlet dofs changing Ndof, Bc_Init, mesh replacement, node renumbering, coordinate changes, Need_Update, Save_Iter/Set_Iter) on a harness-defined _Simu subclass (bulk + boundary + point groups, boundary groups either the mesh's own or user-built copies with the elements in another order, 1-2 problem types with different dofs per node in one object) and on Thermal / Elastic / PhaseField simulations. After every assembly K, C, M, F are compared (1e-12) with a dense loop summation of the very element arrays Construct_local_matrix_system returned for that call; shape, canonical CSR and complex dtype are checked; renumbering must give P K P^T. A fault batch makes the k-th sparse construction of an assembly fail with MemoryError (assembly interrupted after some slots were built and maps cached): the repeated assembly must be exact and an interrupted Get_K_C_M_F must still ask for an update. Probes count reused vs rebuilt maps. Size is covered by one more actor (0.06 % of the quick runs, 0.2 % of the thorough ones, plus a fixed scenario replay run by every check): a Thermal simulation on a structured QUAD4 grid with 46 656 - 53 361 dofs (row * Ndof + col beyond 32 bits), assembled twice, compared with a sparse COO scatter-add of the element arrays. User-built boundary patches (two sub-sets of the boundary group with the same element type and count, K / M terms on one and C / F terms on the other) that move along the boundary between assemblies.",
     "Trusted: the dense loop reference (simkit.refs.ref_scatter_*), the wrapper that records the element arrays, NumPy. Staleness of Get_K_C_M_F() is not decided here (C14). The clause 'the solution is permuted by renumbering' is covered only through P K P^T (the solve itself is C04).",
     "deterministic simulation: seeded assembly/cache-key histories vs dense scatter-add reference, ddmin-minimised replay files",
     "DESIGN.md section 5, C03",
 )
 check(
     "C04", "bc",
-    "Seeded search over sequences of add_dirichlet (constants, nodal arrays, functions of position; overlapping node sets, duplicated dofs, any order), add_neumann / add_lineLoad / add_surfLoad / add_volumeLoad, generic multi-point Lagrange conditions, beam connections (fixed / hinged) on 2D and 3D frames, Bc_Init, back-end switches (direct, cg, bicg, gmres, lgmres) and Solve, for Elastic (2D/3D), Thermal, linear WeakForms (scalar and vector fields), Beam (Euler-Bernoulli and Timoshenko; solves are generated for clamped and connected frames), HyperElastic (Newton-incremental) and meshes with orphan nodes (all actors). After every Solve: constrained dofs hold the sum of their entries, multi-point constraints are satisfied, the solution equals a dense KKT reference solve of the very K and F the simulation assembled (kappa-scaled; 10*kappa*rtol for iterative back ends), the residual is orthogonal to the constraint null space, nothing is NaN. Newton actors: a brand-new simulation with the same conditions started at the returned solution must find a residual at the level of the Newton tolerances and must not move. Injected back-end failures (for Newton loops also placed relative to the end of the loop, whose length is measured on a discarded twin): the failed Solve leaves the solution untouched and the retry passes all of the above.",
+    "Seeded search over sequences of add_dirichlet (constants, nodal arrays, functions of position; overlapping node sets, duplicated dofs, any order), add_neumann / add_lineLoad / add_surfLoad / add_volumeLoad, generic multi-point Lagrange conditions, beam connections (fixed / hinged) on 2D and 3D frames, Bc_Init, back-end switches (direct, cg, bicg, gmres, lgmres) and Solve, for Elastic (2D/3D), Thermal, linear WeakForms (scalar and vector fields), Beam (Euler-Bernoulli and Timoshenko; solves are generated for clamped and connected frames), HyperElastic (Newton-incremental) and meshes with orphan nodes (all actors). After every Solve: constrained dofs hold the sum of their entries, multi-point constraints are satisfied, the solution equals a dense KKT reference solve of the very K and F the simulation assembled (kappa-scaled; 10*kappa*rtol for iterative back ends), the residual is orthogonal to the constraint null space, nothing is NaN. Newton actors: a brand-new simulation with the same conditions started at the returned solution must find a residual at the level of the Newton tolerances and must not move. Injected back-end failures (for Newton loops also placed relative to the end of the loop, whose length is measured on a discarded twin): the failed Solve leaves the solution untouched and the retry passes all of the above. One caller array is passed for several unknowns and entered again later (load stepping, Bc_Init + re-add); nodal loads are given node by node and what add_neumann adds to the load vector is compared with the entered values held by the reference.",
     "Trusted: the dense reference (simkit.engines.bc._reference), NumPy, K and F as assembled (C01-C03, C09). Duplicated Dirichlet dofs are generated with and without Lagrange conditions (sum of the entries on both solver paths). Distributed loads are generated only on node sets that bound loaded elements. The bounded least-squares back end only accepts bounded problems and is exercised by the phase-field engine. Newton non-convergence with duplicated dofs is flagged only if the same problem with merged entries converges.",
     "deterministic simulation: seeded constraint-call/back-end/fault sequences vs dense KKT reference model, ddmin-minimised replay files",
     "DESIGN.md section 5, C04",
 )
 check(
     "C05", "dyn",
-    "Seeded search over time-stepping histories (Elastic with Rayleigh damping: newmark, hht, hht_newmark, midpoint, backward and forward Euler; Thermal and linear WeakForms: parabolic theta-scheme and hyperbolic schemes): arbitrary prior states (magnitudes from 1e-16 to 1: nothing in a linear scheme may depend on the units), parameters drawn from the accepted ranges, step size over four decades, load/constraint changes, scheme or step-size switches between steps, Save_Iter/Set_Iter rollback, injected back-end failure + retry, virtual clock jumps. After every step: documented update relations (well-conditioned forms), K u_t + C v_t + M a_t = F on free dofs, constraints, equality with one generic dense reference integrator built from the documented scheme definitions (backward-error based tolerances), weights = derivatives of the evaluation-point states, and discrete energy (conserved by Newmark(1/4,1/2) and midpoint, non-increasing for backward Euler) in free undamped motion. The incremental (Newton) path is driven by a HyperElastic actor under newmark / hht / hht_newmark / midpoint / backward Euler: update relations and R_int(u_t) + M a_t = f_ext on the free dofs (internal force from a brand-new static simulation assembled at u_t), with failed steps retried after a change of step size or scheme.",
+    "Seeded search over time-stepping histories (Elastic with Rayleigh damping: newmark, hht, hht_newmark, midpoint, backward and forward Euler; Thermal and linear WeakForms: parabolic theta-scheme and hyperbolic schemes): arbitrary prior states (magnitudes from 1e-16 to 1: nothing in a linear scheme may depend on the units), parameters drawn from the accepted ranges, step size over four decades, load/constraint changes, scheme or step-size switches between steps, Save_Iter/Set_Iter rollback, injected back-end failure + retry, virtual clock jumps. After every step: documented update relations (well-conditioned forms), K u_t + C v_t + M a_t = F on free dofs, constraints, equality with one generic dense reference integrator built from the documented scheme definitions (backward-error based tolerances), weights = derivatives of the evaluation-point states, and discrete energy (conserved by Newmark(1/4,1/2) and midpoint, non-increasing for backward Euler) in free undamped motion. The incremental (Newton) path is driven by a HyperElastic actor under newmark / hht / hht_newmark / midpoint / backward Euler: update relations and R_int(u_t) + M a_t = f_ext on the free dofs (internal force from a brand-new static simulation assembled at u_t), with failed steps retried after a change of step size or scheme. A Beam actor (12 % of the runs) steps frames of 2-3 beams (Euler-Bernoulli / Timoshenko, 2D / 3D, SEG2 / SEG3; fixed / hinged connections = Lagrange path, or none) with newmark / hht / hht_newmark / midpoint / backward Euler, changing scheme, step size, modulus and density between steps: constraints (sum convention + connections) held, update relations, equality with a dense null-space reference step, K u_t + M a_t = F on the null space of the constraints, energy in free motion from a projected state.",
     "Trusted: the reference integrator (simkit.engines.dyn.ref_states/ref_step, transcribed from the AlgoType and Solver_Set_Parabolic_Algorithm docstrings), dense NumPy algebra, K/C/M/F as returned by Get_K_C_M_F (their correctness is C01-C03). Parabolic alpha is drawn from (0.05, 1]; alpha = 0 is documented but divides by zero and is not generated. The Newton actor uses the pointwise stress only (the other stress options are C18's).",
     "deterministic simulation: seeded step/parameter/state/fault histories vs generic reference integrator, ddmin-minimised replay files",
     "DESIGN.md section 5, C05",
@@ -77,21 +77,21 @@ check(
 
 check(
     "C11", "law",
-    "PARTIAL CLAIM - only the clause 'changing a parameter changes the law on next read'. Seeded search over sequences of parameter writes (scalars and per-element / per-Gauss-point fields), plane-stress toggles, Set_C (Voigt / Kelvin-Mandel) and reads of C, S, Get_sqrt_C_S, Walpole_Decomposition on Isotropic, TransverselyIsotropic, Orthotropic and Anisotropic laws (2D/3D, unnormalised orthogonal axes), observed by 0-2 real Elastic simulations. Oracle: a law freshly constructed with the final parameters returns byte-identical C and S; arrays returned by parameter reads are overwritten in place (no assignment: the law must not change, now or after the next write); equal-value writes and writes the setter rejects are generated on purpose (they must neither cancel a pending change nor leave a trace); whenever a write leaves an update flag down the law and the observers' matrices are read at once and must be those of the final parameters; observers reassemble the K of the final law; on every reached state C = C^T, C.S = I, eig(C) > 0, sqrt(C)^2 = C, and three independent dense references for the notation / rotation / reduction clauses: an Anisotropic law equals the entered matrix (Voigt or Kelvin-Mandel) rotated as a fourth-order tensor by Q = [e1 e2 e1 x e2] with numpy.einsum; a TransverselyIsotropic / Orthotropic law with axes (a1, a2) equals its material matrix (axes on the global ones) rotated the same way; a homogeneous 2D law equals the plane-stress / plane-strain reduction of a 3D law of the same class (invariants on visited states only, not over all parameters).",
+    "PARTIAL CLAIM - only the clause 'changing a parameter changes the law on next read'. Seeded search over sequences of parameter writes (scalars and per-element / per-Gauss-point fields), plane-stress toggles, Set_C (Voigt / Kelvin-Mandel) and reads of C, S, Get_sqrt_C_S, Walpole_Decomposition on Isotropic, TransverselyIsotropic, Orthotropic and Anisotropic laws (2D/3D, unnormalised orthogonal axes), observed by 0-2 real Elastic simulations. Oracle: a law freshly constructed with the final parameters returns byte-identical C and S; arrays returned by parameter reads are overwritten in place (no assignment: the law must not change, now or after the next write); equal-value writes and writes the setter rejects are generated on purpose (they must neither cancel a pending change nor leave a trace); whenever a write leaves an update flag down the law and the observers' matrices are read at once and must be those of the final parameters; observers reassemble the K of the final law; on every reached state C = C^T, C.S = I, eig(C) > 0, sqrt(C)^2 = C, and three independent dense references for the notation / rotation / reduction clauses: an Anisotropic law equals the entered matrix (Voigt or Kelvin-Mandel) rotated as a fourth-order tensor by Q = [e1 e2 e1 x e2] with numpy.einsum; a TransverselyIsotropic / Orthotropic law with axes (a1, a2) equals its material matrix (axes on the global ones) rotated the same way; a homogeneous 2D law equals the plane-stress / plane-strain reduction of a 3D law of the same class (invariants on visited states only, not over all parameters). On every axis pair a history holds (as entered, not normalised) the public change-of-basis helper Models.Get_Pmat must return an orthogonal matrix.",
     "NOT decided: SPD / inverse / plane-stress and plane-strain reductions / notation / rotation as statements over all admissible parameters (pure functions of the input; they are evaluated only on the states the histories reach). Parameter sets that a freshly built law rejects in the same way as the live one (differential rule) are counted, not flagged.",
     "deterministic simulation: seeded write/read histories vs freshly-built reference law, ddmin-minimised replay files",
     "DESIGN.md section 5, C11",
 )
 check(
     "C17", "pf",
-    "PARTIAL CLAIM - the irreversibility clauses, and the split clauses on the states the histories visit. Seeded search over load / unload / reverse / shear / zero-load / rigid-translation / homogeneous-strain histories (prescribed u = A x with repeated principal strains: equibiaxial, hydrostatic, confined and uniaxial patterns, whose computed principal values coincide exactly or up to round-off) (optionally a second degenerate pattern on the other half of the body, so that one call of the decomposition sees several degenerate kinds and generic points) of the staggered phase-field solver for all 14 splits x {AT1, AT2} x {History, HistoryDamage, BoundConstrain} on isotropic, transversely isotropic and anisotropic materials (2D) and isotropic 3D bodies (hexahedra, tetrahedra, prisms), including rigid translations (strains at round-off level: the repeated-eigenvalue branches of the spectral decomposition), with varying tolConv / maxIter / convergence option, Save_Iter, Set_Iter(i, resetAll) rollback and injected back-end failures inside the staggered loop. At every saved step: the stored history energy never decreases pointwise; for the two damage-based solvers the saved nodal damage never decreases; BoundConstrain keeps the damage within [previous damage, 1] (the bounded least-squares back end of C04); an all-zero load history leaves the damage at zero. On every visited strain state: sigma+ + sigma- = C:eps, psi+ + psi- = 1/2 eps:C:eps, all finite; on every visited strain and stress tensor the spectral projector P+ applied to the tensor equals the positive part given by numpy.linalg.eigh (1e-7 relative) and P+ + P- is the identity.",
+    "PARTIAL CLAIM - the irreversibility clauses, and the split clauses on the states the histories visit. Seeded search over load / unload / reverse / shear / zero-load / rigid-translation / homogeneous-strain histories (prescribed u = A x with repeated principal strains: equibiaxial, hydrostatic, confined and uniaxial patterns, whose computed principal values coincide exactly or up to round-off) (optionally a second degenerate pattern on the other half of the body, so that one call of the decomposition sees several degenerate kinds and generic points) of the staggered phase-field solver for all 14 splits x {AT1, AT2} x {History, HistoryDamage, BoundConstrain} on isotropic, transversely isotropic and anisotropic materials (2D) and isotropic 3D bodies (hexahedra, tetrahedra, prisms), including rigid translations (strains at round-off level: the repeated-eigenvalue branches of the spectral decomposition), with varying tolConv / maxIter / convergence option, Save_Iter, Set_Iter(i, resetAll) rollback and injected back-end failures inside the staggered loop. At every saved step: the stored history energy never decreases pointwise; for the two damage-based solvers the saved nodal damage never decreases; BoundConstrain keeps the damage within [previous damage, 1] (the bounded least-squares back end of C04); an all-zero load history leaves the damage at zero. On every visited strain state: sigma+ + sigma- = C:eps, psi+ + psi- = 1/2 eps:C:eps, all finite; on every visited strain and stress tensor the spectral projector P+ applied to the tensor equals the positive part given by numpy.linalg.eigh (1e-7 relative) and P+ + P- is the identity. A fifth of the runs prescribe the damage (0, 0.6 or 1) on one or two nodes for every irreversibility solver: the values must be held and Solve must not raise.",
     "NOT decided: the split and projector clauses as statements over ALL strain tensors (pure functions of the input): they are evaluated only on the tensors the simulated histories reach (which include zero, hydrostatic, uniaxial, equibiaxial and round-off-degenerate states in 2D and 3D); the 4th-order projector is checked through its action on the tensor it was built from, not as a derivative. One open finding (AT1 with a vanishing positive energy gives a singular damage system and NaN) is steered around in the random batch by a damage-free clamp and reproduced from its own replay file.",
     "deterministic simulation: seeded load/solve/save/rollback/fault histories, monotonicity oracles over the recorded history, ddmin-minimised replay files",
     "DESIGN.md section 5, C17",
 )
 check(
     "C18", "hyper",
-    "PARTIAL CLAIM - the discrete energy-balance clause and, on the visited states only, the Newton-system consistency clause. Seeded trajectories of free motion (clamped or free bodies; static preload and/or random initial velocity) under the midpoint scheme (two thirds of the runs; the others step newmark, hht or backward Euler with the consistency oracles only) with the gonzalez stress, the adaptive quadrature stress (energyTol = 1e-10), fixed strain-path rules (1, 2, 3, 5 points: exactly conserving for Saint-Venant-Kirchhoff, whose dW/de is linear) and the pointwise stress (not conserving: consistency checks only), optionally with Kelvin-Voigt viscosity or an active fibre stress (non-conservative: consistency checks only), for NeoHookean, Mooney-Rivlin, Ciarlet-Geymonat, Saint-Venant-Kirchhoff and Holzapfel-Ogden (two fibre families, every term switched on) laws, step-size changes and density changes between steps (the energy constant is re-based at the change; the kinetic energy uses the first assembled mass scaled by the ratio of the densities, never a mass re-read from the simulation), Save_Iter / Set_Iter rollback and injected back-end failures inside a Newton iteration followed by a retry. Invariant after every step: |KE + W - E0| <= 1e-5 of the energy scale; a failed step leaves (u, v, a) untouched; rollback returns to the recorded energy. At trial states away from u_n along the trajectory: A = coefK K + coefC C + coefM M applied to a direction equals the central difference of the assembled residual (scheme, stress option and previous state included). On states of the trajectory: the internal force assembled by a brand-new static simulation, contracted with a random direction, equals the central difference of the total stored energy along it; the deformed body turned as a whole (x' = Q (X + u), random Q) has the same stored energy and internal forces turned by Q. At the reference state each run starts from: W = 0, zero internal force, the unloaded static solve does not move the body.",
+    "PARTIAL CLAIM - the discrete energy-balance clause and, on the visited states only, the Newton-system consistency clause. Seeded trajectories of free motion (clamped or free bodies; static preload and/or random initial velocity) under the midpoint scheme (two thirds of the runs; the others step newmark, hht or backward Euler with the consistency oracles only) with the gonzalez stress, the adaptive quadrature stress (energyTol = 1e-10), fixed strain-path rules (1, 2, 3, 5 points: exactly conserving for Saint-Venant-Kirchhoff, whose dW/de is linear) and the pointwise stress (not conserving: consistency checks only), optionally with Kelvin-Voigt viscosity or an active fibre stress (non-conservative: consistency checks only), for NeoHookean, Mooney-Rivlin, Ciarlet-Geymonat, Saint-Venant-Kirchhoff and Holzapfel-Ogden (two fibre families, every term switched on) laws, step-size changes and density changes between steps (the energy constant is re-based at the change; the kinetic energy uses the first assembled mass scaled by the ratio of the densities, never a mass re-read from the simulation), Save_Iter / Set_Iter rollback and injected back-end failures inside a Newton iteration followed by a retry. Invariant after every step: |KE + W - E0| <= 1e-5 of the energy scale; a failed step leaves (u, v, a) untouched; rollback returns to the recorded energy. At trial states away from u_n along the trajectory: A = coefK K + coefC C + coefM M applied to a direction equals the central difference of the assembled residual (scheme, stress option and previous state included). On states of the trajectory: the internal force assembled by a brand-new static simulation, contracted with a random direction, equals the central difference of the total stored energy along it; the deformed body turned as a whole (x' = Q (X + u), random Q) has the same stored energy and internal forces turned by Q. At the reference state each run starts from: W = 0, zero internal force, the unloaded static solve does not move the body. A surface-operator actor (30 % of the runs; HEXA8 / TETRA4 / PRISM6 / TETRA10 / HEXA20 and 2D meshes) wires FollowingPressure and PenaltyContact against a rigid plane into a HyperElastic subclass the way the repository's examples do, changes pressures, obstacle and scheme between solves, and checks on the visited states: Newton system = central difference of the residual, the operators alone at their own scale, closed-surface pressure has no resultant and does the work p dV, contact force = minus the derivative of the penalty energy, residual of converged static solves. The active-stress direction is registered again / the tension changed between steps.",
     "NOT decided: stress = dW/de, tangent = d(stress)/de, objectivity (pure); tangent/residual consistency is checked only for the assembled Newton system on visited states, not per operator over all inputs. Runs with a non-converging or inverted step are discarded and counted. The mass matrix is the one the simulation assembles.",
     "deterministic simulation: seeded dynamic trajectories with fault injection, conserved-quantity oracle, ddmin-minimised replay files",
     "DESIGN.md section 5, C18",
@@ -105,8 +105,8 @@ check(
 )
 check(
     "C20", "mpi",
-    "N = 2..12 simulated MPI ranks in one process (fake mpi4py, stub PETSc), each a baton-passing thread holding one partition produced by the real Mesher._Mesh_Get_Meshes(N) on TRI3/TRI6/QUAD4/QUAD8/TETRA4/TETRA10/HEXA8/PRISM6 meshes; a seeded scheduler chooses which rank runs between collectives (with starvation of one rank and abort + restart of the whole job from the per-rank files as faults); in 40 % of the runs the Mesher that splits the mesh has split another model into another number of parts before. Phase 1 (set model): every element and node owned exactly once, ghost layer = every foreign element touching an owned node and nothing else, local connectivity = owned + ghost rows of the global one, numbering / coordinates / tags preserved, same split twice, Mesh.Merge with mapping restores element count, measure and coordinates. Phase 2 (Dirichlet conditions plus, in 60 % of the runs, a nodal or distributed load applied the way an unchanged user script does on every rank): rows of each rank's K and load vector at its owned dofs equal the global ones; the distributed solution equals a dense global solve on every rank (static runs) or, in 30 % of the runs, (u, v, a) after each step of a time scheme equal the serial step and the mass / capacity rows are complete; Calc_Energy and the sum of Calc_Reaction equal the global values on every rank; per-rank iteration files hold the rank's slice and merge to the full vector after _Gather; per-rank Save / Load_Simu; gathered mesh equals the unpartitioned one; all ranks execute the same collective sequence (otherwise DEADLOCK with per-rank logs). Actors: Elastic, Thermal, linear WeakForms (scalar and vector fields, the Field of each rank bound to the main group of its part), PhaseField, HyperElastic and InElastic (Newton loops under the partition).",
-    "mpi4py and petsc4py are stubs (no real parallel execution, no real PETSc back end): what runs for real is EasyFEA's partitioner and parallel bookkeeping. The serial reference is EasyFEA's own serial assembly on the unpartitioned mesh of the same gmsh model. Merge of arbitrary coincident/disjoint mesh lists is only exercised on the partitions themselves.",
+    "N = 2..12 simulated MPI ranks in one process (fake mpi4py, stub PETSc), each a baton-passing thread holding one partition produced by the real Mesher._Mesh_Get_Meshes(N) on TRI3/TRI6/QUAD4/QUAD8/TETRA4/TETRA10/HEXA8/PRISM6 meshes; a seeded scheduler chooses which rank runs between collectives (with starvation of one rank and abort + restart of the whole job from the per-rank files as faults); in 40 % of the runs the Mesher that splits the mesh has split another model into another number of parts before. Phase 1 (set model): every element and node owned exactly once, ghost layer = every foreign element touching an owned node and nothing else, local connectivity = owned + ghost rows of the global one, numbering / coordinates / tags preserved, same split twice, Mesh.Merge with mapping restores element count, measure and coordinates. Phase 2 (Dirichlet conditions plus, in 60 % of the runs, a nodal or distributed load applied the way an unchanged user script does on every rank): rows of each rank's K and load vector at its owned dofs equal the global ones; the distributed solution equals a dense global solve on every rank (static runs) or, in 30 % of the runs, (u, v, a) after each step of a time scheme equal the serial step and the mass / capacity rows are complete; Calc_Energy and the sum of Calc_Reaction equal the global values on every rank; per-rank iteration files hold the rank's slice and merge to the full vector after _Gather; per-rank Save / Load_Simu; gathered mesh equals the unpartitioned one; all ranks execute the same collective sequence (otherwise DEADLOCK with per-rank logs). Actors: Elastic, Thermal, linear WeakForms (scalar and vector fields, the Field of each rank bound to the main group of its part), PhaseField, HyperElastic and InElastic (Newton loops under the partition). The merge clause has histories of its own (once per run): lists of 2-4 meshes side by side / on top of each other / apart / with a strut of another dimension between two bodies, merged flat and in two goes (a merged mesh is an input of the next merge), checked from the raw arrays of the inputs (mapping, elements, node positions, nested = flat).",
+    "mpi4py and petsc4py are stubs (no real parallel execution, no real PETSc back end): what runs for real is EasyFEA's partitioner and parallel bookkeeping. The serial reference is EasyFEA's own serial assembly on the unpartitioned mesh of the same gmsh model. Merge lists are built from the library meshes and SEG2 struts (2D and 3D); mixed-type meshes are merged only as partition parts.",
     "deterministic simulation of a multi-rank world: seeded rank scheduling over rendez-vous collectives vs serial reference model, ddmin-minimised replay files",
     "DESIGN.md section 5, C20",
 )
